@@ -142,3 +142,54 @@ func TestLbvcScenarioExpiryAfterLeave(t *testing.T) {
 		os.Exit(1)
 	}
 }
+
+// The group epoch guard (property C12): an operation that carries the group's CURRENT epoch or a newer one is
+// applied, an older one is refused and changes nothing. (Group operations carry the index of their Raft log entry;
+// a group is created and its first member added by ONE entry, so the equal case is the normal first join.)
+func TestLbvcScenarioGroupEpochGuard(t *testing.T) {
+	obl := os.Getenv("LBVC_OBLIGATION")
+	mk := func() *consumerGroup {
+		return newConsumerGroup("this-server", time.Hour, &proto.ConsumerGroup{Id: "g", Coordinator: "this-server", Epoch: 5}, false, noopLogger(),
+			func(string, string) error { return nil }, func(string) int32 { return 2 })
+	}
+	owners := func(g *consumerGroup) string {
+		g.mu.RLock()
+		defer g.mu.RUnlock()
+		s := ""
+		for id, m := range g.members {
+			s += fmt.Sprintf("%s%v ", id, m.assignments)
+		}
+		return s
+	}
+	var problems []string
+	g := mk()
+	if err := g.AddMember("a", []string{"s1"}, 5); err != nil {
+		problems = append(problems, fmt.Sprintf("group at epoch 5: join(a,[s1]) carrying epoch 5 is refused (%v): the group's first member is never added, s1's partitions have no owner", err))
+	} else if err := g.AddMember("b", []string{"s1"}, 4); err == nil {
+		problems = append(problems, "group at epoch 5: join(b,[s1]) carrying the OLDER epoch 4 is accepted")
+	}
+	g.Close()
+	g = mk()
+	if err := g.AddMember("a", []string{"s1"}, 6); err == nil {
+		if err := g.AddMember("b", []string{"s1"}, 7); err == nil {
+			before := owners(g)
+			if _, err := g.RemoveMember("b", 7); err != nil {
+				problems = append(problems, fmt.Sprintf("group at epoch 7 with members a, b: leave(b) carrying epoch 7 is refused (%v): b keeps its partitions (%s)", err, before))
+			}
+			if _, err := g.RemoveMember("a", 3); err == nil {
+				problems = append(problems, "leave(a) carrying the older epoch 3 is accepted")
+			}
+		}
+	}
+	g.Close()
+	g = mk()
+	if err := g.AddMember("a", []string{"s1", "s2"}, 6); err == nil {
+		if err := g.StreamDeleted("s1", 6); err != nil {
+			problems = append(problems, fmt.Sprintf("group at epoch 6: deleteStream(s1) carrying epoch 6 is refused (%v): a keeps partitions of a deleted stream (%s)", err, owners(g)))
+		}
+	}
+	g.Close()
+	if len(problems) > 0 {
+		t.Fatalf("LBVC-REPRODUCED (obligation %s): %v", obl, problems)
+	}
+}
